@@ -157,6 +157,22 @@ example : (Sys.run handTable Cfg.fixed Sys.init
     [.enterRead, .read 0x1B, .enterRead, .timerExpire, .read 0x5B, .enterRead, .read 0x41, .cbRun false]).map (·.2) =
     some [.csi [] [] 0x41] := by decide
 
+/-- **Emitting statements are serialised** (what the bounded-channel layer `Model/ParserRunChan.lean`
+    takes for granted): in every reachable state in which a callback is at its `emit(C0 0x1B)`, the main
+    goroutine is at neither of its emitting statements (`anywhere` under the mutex, `emit(EOF{})` after the
+    final generation bump) and no other callback is at its `emit` — so at most one goroutine is ever
+    sending, or blocked sending, on `p.sequences`. -/
+theorem fine_single_emitter (T : Table) (hT : TimerOk T) (fls : List FLabel) (f : FSys) (out : List Seq)
+    (h : FSys.run T FSys.init fls = some (f, out)) (i g : Nat) (hi : f.cbs[i]? = some (g, .passed)) :
+    (∀ inp, f.mpc ≠ .bumped inp) ∧ (∀ v, f.mpc ≠ .fin .emit v) ∧
+    (∀ j g', f.cbs[j]? = some (g', .passed) → j = i) := by
+  obtain ⟨hinv, _, _⟩ := reach_sim T hT fls f out h
+  exact single_emitter f hinv i g hi
+
+example : (FSys.run handTable FSys.init
+    [.main, .readRet (.rune 0x1B), .main, .main, .main, .main, .main, .main, .expire, .cb 0, .cb 0]).map
+      (fun x => x.1.cbs[0]?) = some (some (1, .passed)) := by decide
+
 /-- **The mutex is never held for ever**: in every reachable state in which the main goroutine is
     neither blocked in the read nor finished, its next statement is enabled, or — it is waiting in
     `Lock` — the callback that holds the mutex can take its next statement (and a callback's critical
